@@ -1,0 +1,32 @@
+//go:build verif
+
+package mash
+
+import "github.com/fluhus/gostuff/minhash"
+
+// Property-level theorems for /verif/govc, written as client programs of the
+// contracted functions. Never called; verified modularly.
+
+//@ theorem C17.monotone
+//@   props C17
+//@   requires k >= 1 && 0.0 <= j1 && j1 <= j2 && j2 <= 1.0
+// FromJaccard is non-increasing in the Jaccard similarity.
+func thmMonotone(j1, j2 float64, k int) {
+	d1 := FromJaccard(j1, k)
+	d2 := FromJaccard(j2, k)
+	//@ assert d2 <= d1
+	_, _ = d1, d2
+}
+
+//@ theorem C17.symmetric
+//@   props C17
+//@   requires k >= 1
+// Distance is symmetric, and 0 for identical sketch contents.
+func thmSymmetric(a, b *minhash.MinHash[uint64], k int) {
+	d1 := Distance(a, b, k)
+	d2 := Distance(b, a, k)
+	//@ assert d1 == d2
+	d3 := Distance(a, a, k)
+	//@ assert d3 == 0.0
+	_, _, _ = d1, d2, d3
+}
